@@ -749,6 +749,6 @@ RULE = ('one case = one (structure, leaf kinds, delays, fault list, scheduler ta
         'distinct = distinct digest of (trace, observed completion order, result)')
 PROBES = ['later-listed-completes-first', 'tie-broken-by-scheduler', 'timer-fired-late', 'dict-values-complete-out-of-key-order',
           'nested-depth>=3', 'same-awaitable-twice', 'leaf-depends-on-other-leaf', 'second-round-on-same-containers', 'same-container-twice']
-TIERS = {'quick': {'runs': 40000, 'wallcap': 45}, 'thorough': {'runs': 1500000, 'wallcap': 780}}
+TIERS = {'quick': {'runs': 40000, 'wallcap': 45}, 'thorough': {'runs': 4000000, 'wallcap': 780}}
 ASSUMPTIONS = ['only legal asyncio schedules are generated: FIFO call_soon, timers never early, seeded lateness and tie order',
                'only the waiter clause of C19 is decided here; the lifting/zipper/as_list clauses are pure and not covered']
